@@ -178,8 +178,9 @@ def minify(
     elif isinstance(preserve_globals, str):
         preserve_globals = [preserve_globals]
 
-    preserve_locals.extend(module.preserved)
-    preserve_globals.extend(module.preserved)
+    # Don't modify the caller's lists
+    preserve_locals = list(preserve_locals) + sorted(module.preserved)
+    preserve_globals = list(preserve_globals) + sorted(module.preserved)
 
     allow_rename_locals(module, rename_locals, preserve_locals)
     allow_rename_globals(module, rename_globals, preserve_globals)
